@@ -72,6 +72,10 @@ MAPS = [
     [("a", {(0, 0): [1]}), ("b", {(1, 0): [1, 2]})],
     [("a", {(0, 0): [1]}), ("b", {(0, 0): [2], (1, 1): [1]})],
     [("a", {(0, 0): [1], (0, 1): [1]}), ("b", {(1, 0): [3]})],
+    # core 16/17 on the chip with the smaller region word (ordering of the
+    # core selections)
+    [("a", {(0, 0): [17], (1, 0): [1]})],
+    [("a", {(0, 0): [16, 17], (1, 0): [2], (1, 1): [1, 17]})],
 ]
 INITIAL = ["clean", "target_waiting", "other_waiting"]
 
@@ -121,7 +125,8 @@ def run_one(cfg, ch, acc):
     elif init == "other_waiting":
         # a core that is not requested, on a requested chip if possible
         c = chips[0]
-        p = max(ps for (cc, ps) in want if cc == c) + 1
+        taken = set(ps for (cc, ps) in want if cc == c)
+        p = next(q for q in range(1, 18) if q not in taken)
         pre = (c, p)
     if pre:
         chip = sim.chips[pre[0]]
